@@ -11,10 +11,10 @@ per_round = collections.defaultdict(lambda: collections.Counter())
 for p in glob.glob(f"{H}/seeded/*/*/meta.json"):
     pid, n = p.split('/')[-3], int(p.split('/')[-2]); v = json.load(open(p))["verified"]; note = notes.get(f"{pid}/{n}")
     r = (n - 1) // 3 + 1
-    k = ("strengthened" if note else "asis") if v.get("check_rc") == 1 else ("cross" if v.get("also_caught_by") else ("notpursued" if note and note.startswith("not pursued") else "MISSED"))
+    k = ("strengthened" if note else "asis") if v.get("check_rc") == 1 else ("cross" if v.get("also_caught_by") else ("open" if note and note.startswith("open:") else ("notpursued" if note and note.startswith("not pursued") else "MISSED")))
     per_round[r][k] += 1
 total = sum(tally.values())
-rounds = "\n".join(f"| {r} | {sum(c.values())} | {c['asis']} | {c['strengthened']} | {c['cross']} | {c['notpursued']} |" for r, c in sorted(per_round.items()))
+rounds = "\n".join(f"| {r} | {sum(c.values())} | {c['asis']} | {c['strengthened']} | {c['cross']} | {c['notpursued']} | {c['open']} |" for r, c in sorted(per_round.items()))
 prose = open(f"{H}/seeded/SECTION10.md").read()
 prose = prose.format(total=total, nrounds=len(per_round), rounds=rounds, **tally)
 d = open(f"{H}/DESIGN.md").read()
